@@ -58,6 +58,8 @@ BASE_DOCS = [
     # the second item violates the unique constraint U declared on the intermediate element
     '<t:root xmlns:t="urn:c11"><t:item><t:n>1</t:n><t:sub><t:n>1</t:n></t:sub><t:sub><t:n>2</t:n></t:sub></t:item>'
     '<t:item><t:n>2</t:n><t:sub><t:n>1</t:n></t:sub><t:sub><t:n>1</t:n></t:sub></t:item></t:root>',
+    # an empty sub element (content not complete) below the chunks of a lazy depth 3
+    '<t:root xmlns:t="urn:c11"><t:item id="a1" k="5"><t:n>1</t:n><t:sub ref="a1"></t:sub></t:item><t:item><t:n>2</t:n></t:item></t:root>',
 ]
 LEX_POOL = ['99999999999999999999999999999999', '-0', '1e400', '٣', '１２', '1_0', ' ', '', 'NaN', 'INF', '0000-00-00',
             '99999999999999999999-01-01T00:00:00', 'P99999999999999999999Y', '2020-13-45', ':', 'a:b:c', 'x:', 'p::q',
